@@ -32,7 +32,8 @@ T0 = (2020, 3, 1, 0, 0, 0, 0)
 CAL = [(2020, 3, 1, 0, 0, 0, 0), (2020, 1, 31, 18, 0, 0, 0), (2020, 2, 1, 6, 0, 0, 0), (2019, 12, 31, 23, 59, 59, 0),
        (2020, 1, 1, 0, 0, 0, 0), (2020, 2, 29, 1, 0, 0, 0), (2020, 2, 28, 23, 0, 0, 0), (2020, 10, 2, 5, 30, 0, 0),
        (2020, 9, 30, 7, 0, 0, 500), (2021, 1, 1, 0, 0, 0, 0), (2020, 12, 31, 23, 59, 59, 999),
-       (2020, 6, 15, 12, 0, 0, 0), (2020, 5, 20, 12, 0, 0, 0), (2020, 3, 1, 0, 0, 1, 0)]
+       (2020, 6, 15, 12, 0, 0, 0), (2020, 5, 20, 12, 0, 0, 0), (2020, 3, 1, 0, 0, 1, 0),
+       (2071, 5, 5, 5, 5, 5, 0)]          # the last one is outside the domain of sortRadix (1970..2069)
 NAN = float("nan")
 
 C01_OPS = ("create", "update", "remove", "setitem", "setitem_delete", "setitem_func", "setobs",
@@ -57,7 +58,12 @@ ANY_AGG_B = ("COVARIANCE", "CORRELATION", "L0", "L1", "L2", "LINF", "EQUAL")
 DOMAIN_ERRORS = (Exception,)
 C04_OPS = ("add_obs", "sort", "insert_chrono", "insert_at", "remove_list", "remove_obs", "remove_first",
            "remove_last", "extract", "span", "concat", "mod_n", "mod_pattern", "gt", "lt", "set_obs",
-           "fork_reverse", "fork_span", "edit_time", "slice", "pop_obs", "span_track")
+           "fork_reverse", "fork_span", "edit_time", "slice", "pop_obs", "span_track", "sort_radix", "fork_concat")
+# steps a session may take whose track holds the same Obs object at two positions (the result of
+# t + t and the like, shared by design): everything that neither creates features nor edits an Obs
+DUP_SAFE_OPS = ("sort", "sort_radix", "remove_list", "remove_obs", "remove_first", "remove_last", "pop_obs",
+                "extract", "slice", "span", "span_track", "gt", "lt", "mod_n", "mod_pattern", "concat",
+                "insert_at", "add_obs", "insert_chrono", "set_obs", "fork_concat", "new_track")
 C17_OPS = ("abs_curv", "speed", "speed_direct", "ds")
 
 
@@ -138,6 +144,7 @@ class TrackWorld(World):
         for fam, names in (("C01", C01_OPS), ("C04", C04_OPS), ("C17", C17_OPS)):
             for o in names:
                 ops[o] = r.choice([0, 1, 1, 2, 4])
+        ops["sort_radix"] = r.choice([0, 0, 0, 1]) if ops["sort_radix"] else 0      # 60 000 buckets per call: slow
         if not any(ops[o] for o in cls.FALSIFIERS[focus]):
             ops[cls.FALSIFIERS[focus][0]] = 2
         return {"nsteps": r.choice([5, 10, 20, 40, 80, 120]), "sessions": r.choice([1, 1, 2, 3]),
@@ -489,6 +496,13 @@ class TrackWorld(World):
             return self._instant(k)
         return {"t1": inst(), "t2": inst()}
 
+    def _g_sort_radix(self, r, m):
+        return {}
+
+    def _g_fork_concat(self, r, m):
+        return {"other": r.randrange(self.cfg["sessions"]), "to": r.randrange(self.cfg["sessions"]),
+                "how": r.choice(["plus", "plus", "first", "mod2"])}
+
     def _g_span_track(self, r, m):
         return {"other": r.randrange(self.cfg["sessions"])}
 
@@ -539,6 +553,8 @@ class TrackWorld(World):
     def _sess(self, st):
         s = st.get("s", 0)
         if s not in self.model:
+            raise Skip()
+        if self.model[s].get("dup_obs") and st.get("op") not in DUP_SAFE_OPS:
             raise Skip()
         return self.real[s], self.model[s]
 
@@ -1490,13 +1506,18 @@ class TrackWorld(World):
     def _adopt_order(self, prop, t, m, pool, where):
         """The real order must be a permutation of `pool` in non-decreasing time;
         ties are unspecified, so the model adopts the real order by tag."""
+        # identity = (tag, timestamp): copies of one observation (a track concatenated with its own
+        # fork) carry the same tag and may since have been given different timestamps
+        def key_of_real(ro):
+            ts = ro.timestamp
+            return (ro.position.getZ(), ts.year, ts.month, ts.day, ts.hour, ts.min, ts.sec, ts.ms)
         by_tag = {}
         for o in pool:
-            by_tag.setdefault(o["z"], []).append(o)
-        got_tags = [t.getObs(i).position.getZ() for i in range(t.size())]
-        if sorted(got_tags) != sorted(o["z"] for o in pool):
+            by_tag.setdefault((o["z"],) + tuple(o["t"]), []).append(o)
+        got_tags = [key_of_real(t.getObs(i)) for i in range(t.size())]
+        if sorted(got_tags) != sorted((o["z"],) + tuple(o["t"]) for o in pool):
             self.fail(prop, "sequence.multiset", where + ": the observations are not a permutation of the "
-                      "previous ones", sorted(o["z"] for o in pool), got_tags)
+                      "previous ones", sorted([o["z"]] + list(o["t"]) for o in pool), [list(g) for g in got_tags])
             return False
         new = [by_tag[g].pop() for g in got_tags]
         ts = [tuple(o["t"]) for o in new]
@@ -1522,6 +1543,73 @@ class TrackWorld(World):
         if self._adopt_order("C04", t, m, list(m["obs"]), "sort"):
             m["geo"] += 1
             self._check_all("C04", "sort")
+
+    def op_sort_radix(self, st):
+        """sortRadix: the O(n) sort by time.  Its buckets cover the years 1970..2069; a track
+        with a timestamp outside is refused (IndexError) and must be left as it was."""
+        t, m = self._sess(st)
+        n = len(m["obs"])
+        if n == 0:
+            raise Skip()
+        outside = any(not (1970 <= o["t"][0] <= 2069) for o in m["obs"])
+        _, exc = self.call(t.sortRadix)
+        if outside:
+            self.stats["fault_fired:rejected_request"] += 1
+            if exc is None:
+                raise Skip()          # (years before 1970 wrap around silently: not generated)
+            if isinstance(exc, SystemExit):
+                return self._unexpected("C04", exc, "sortRadix")
+            self.probe("radix_sort_refused_a_year_outside_its_buckets")
+            self._check_all("C04", "refused sortRadix (nothing may change)")
+            return "rejected"
+        if exc is not None:
+            return self._unexpected("C04", exc, "sortRadix")
+        if self._adopt_order("C04", t, m, list(m["obs"]), "sortRadix"):
+            m["geo"] += 1
+            self._check_all("C04", "sortRadix")
+
+    def op_fork_concat(self, st):
+        """The result of t + t2 (or t + t.extract(0, 0), t + t % 2) becomes a session.  It holds
+        the *same* Obs objects as its operands (by design), so the operands' sessions end here;
+        when an operand is used twice the same Obs sits at two positions."""
+        t, m = self._sess(st)
+        self._no_feats(m)
+        o, to, how = st["other"], st["to"], st["how"]
+        s = st.get("s", 0)
+        if not m["obs"]:
+            raise Skip()
+        if how == "plus":
+            if o not in self.model or self.model[o]["names"] or self.model[o].get("dup_obs") and o != s:
+                raise Skip()
+            t2, m2 = self.real[o], self.model[o]
+            second = m2["obs"]
+        elif how == "first":
+            t2, exc = self.call(t.extract, 0, 0)
+            if exc is not None:
+                return self._unexpected("C04", exc, "extract(0, 0)")
+            second, o = m["obs"][:1], s
+        else:
+            t2, exc = self.call(t.__mod__, 2)
+            if exc is not None:
+                return self._unexpected("C04", exc, "t % 2")
+            second, o = m["obs"][::2], s
+        rv, exc = self.call(t.__add__, t2)
+        if exc is not None:
+            return self._unexpected("C04", exc, "t + t2")
+        exp = m["obs"] + second
+        self._check_derived("C04", rv, exp, [], "t%d + (%s)" % (s, how), check_feats=False)
+        if self.violations:
+            return
+        nm = {"obs": copy.deepcopy(exp), "names": [], "fresh": {}, "geo": m["geo"] + 1, "dup_obs": True}
+        for k in {s, o, to}:
+            self.real.pop(k, None)
+            self.model.pop(k, None)
+            self.derived.pop(k, None)
+        self.real[to], self.model[to] = rv, nm
+        if o == s:
+            self.probe("same_observation_at_two_positions")
+        self.probe("concatenation_becomes_a_session")
+        self._check_all("C04", "t + t2 (result kept as a session)")
 
     def op_insert_chrono(self, st):
         t, m = self._sess(st)
